@@ -1,43 +1,90 @@
 import KvarnModel.Memo
 /-! C06, the memoised compressed bodies under concurrent first requests: for every number of callers, every level
-each asks for and every interleaving of their steps, nobody unwraps an empty cell and everybody gets bytes that decode
-to the identity body. (Step granularity: the unsynchronised store is one step — see DESIGN §8.) -/
+each asks for, every interleaving of their steps and every set of callers that go away half-way, the variant is
+compressed by one caller at a time and stored at most once, everybody who finishes gets the bytes that are in the cell —
+all the same — and they decode to the identity body; and nobody waits for ever. -/
 namespace Memo
+open Rust
 
 variable (enc : Nat → Bytes → Bytes) (dec : Bytes → Option Bytes) (level : Nat → Nat) (identity : Bytes)
 
 /-- what a buffer in flight or in the cell must satisfy -/
 def Good (b : Bytes) : Prop := dec b = some identity
 
-def PCOk (cell : Option Bytes) : PC → Prop
-  | .start => True
-  | .computing => True
-  | .computed b => Good dec identity b
-  | .storing b => Good dec identity b
-  | .reading => cell.isSome = true
-  | .holding => cell.isSome = true
-  | .done r => Good dec identity r
-  | .panicked => False
+/-- the task holds the cell's permit -/
+def holds : PC → Bool
+  | .computing => true
+  | .computed _ => true
+  | _ => false
+
+/-- the task's future was dropped -/
+def gone : PC → Bool
+  | .cancelled => true
+  | _ => false
 
 structure Inv (s : St) : Prop where
   cell : ∀ b, s.cell = some b → Good dec identity b
-  tasks : ∀ pc ∈ s.tasks, PCOk dec identity s.cell pc
+  computed : ∀ b, PC.computed b ∈ s.tasks → Good dec identity b
+  done : ∀ r, PC.done r ∈ s.tasks → s.cell = some r
+  mutex : s.tasks.countP holds = if s.permit || s.cell.isSome then 0 else 1
+  stores : s.stores = if s.cell.isSome then 1 else 0
+  counts : s.computes = s.stores + s.releases + s.tasks.countP holds
+  rel : s.releases ≤ s.tasks.countP gone
 
 theorem inv_init (n : Nat) : Inv dec identity (init n) := by
-  refine ⟨(by intro b h; cases h), ?_⟩
-  intro pc h
-  simp only [init, List.mem_replicate] at h
-  rw [h.2]; trivial
-
-/-- a task's claim survives any change of the cell from something to something, and from nothing to something -/
-theorem pcOk_mono (c c' : Option Bytes) (hc : c.isSome = true → c'.isSome = true) (pc : PC)
-    (h : PCOk dec identity c pc) : PCOk dec identity c' pc := by
-  cases pc <;> simp_all [PCOk]
+  have hz : (List.replicate n PC.start).countP holds = 0 := by
+    rw [List.countP_eq_zero]
+    intro pc h
+    simp only [List.mem_replicate] at h
+    rw [h.2]; simp [holds]
+  refine ⟨(by intro b h; cases h), ?_, ?_, ?_, rfl, ?_, (by simp [init])⟩
+  · intro b h; simp [init, List.mem_replicate] at h
+  · intro r h; simp [init, List.mem_replicate] at h
+  · simp only [init, Bool.true_or, ↓reduceIte]; exact hz
+  · simp only [init]; rw [hz]
 
 theorem mem_set {α} (l : List α) (i : Nat) (x y : α) (h : y ∈ l.set i x) : y = x ∨ y ∈ l := by
   rcases List.mem_or_eq_of_mem_set h with h | h
   · exact .inr h
   · exact .inl h
+
+theorem countP_set' {α} (p : α → Bool) (l : List α) (i : Nat) (old new : α) (h : l[i]? = some old) :
+    (l.set i new).countP p + (if p old then 1 else 0) = l.countP p + (if p new then 1 else 0) := by
+  obtain ⟨hi, he⟩ := List.getElem?_eq_some_iff.1 h
+  rw [List.countP_set hi, he]
+  have := List.boole_getElem_le_countP (p := p) hi
+  rw [he] at this
+  omega
+
+theorem gone_mono (l : List PC) (i : Nat) (old new : PC) (h : l[i]? = some old) (ho : gone old = false) :
+    l.countP gone ≤ (l.set i new).countP gone ∧ (gone new = true → l.countP gone + 1 = (l.set i new).countP gone) := by
+  have := countP_set' gone l i old new h
+  rw [ho] at this
+  simp only [Bool.false_eq_true, ↓reduceIte, Nat.add_zero] at this
+  constructor
+  · rw [this]; omega
+  · intro hn; rw [this, hn]; simp
+
+/-- changing task `i` from a non-holder to a non-holder, nothing else -/
+theorem inv_keep (s : St) (i : Nat) (old new : PC) (h : s.tasks[i]? = some old) (I : Inv dec identity s)
+    (ho : holds old = false) (hn : holds new = false) (hg : gone old = false)
+    (hc : ∀ b, new = .computed b → Good dec identity b) (hd : ∀ r, new = .done r → s.cell = some r) :
+    Inv dec identity { s with tasks := s.tasks.set i new } := by
+  have hcnt : (s.tasks.set i new).countP holds = s.tasks.countP holds := by
+    have := countP_set' holds s.tasks i old new h
+    rw [ho, hn] at this
+    simpa using this
+  refine ⟨I.cell, ?_, ?_, ?_, I.stores, ?_, Nat.le_trans I.rel (gone_mono s.tasks i old new h hg).1⟩
+  · intro b hb
+    rcases mem_set _ _ _ _ hb with e | hb
+    · exact hc b e.symm
+    · exact I.computed b hb
+  · intro r hr
+    rcases mem_set _ _ _ _ hr with e | hr
+    · exact hd r e.symm
+    · exact I.done r hr
+  · simp only; rw [hcnt]; exact I.mutex
+  · simp only; rw [hcnt]; exact I.counts
 
 theorem inv_step (henc : ∀ l, dec (enc l identity) = some identity) (s : St) (i : Nat)
     (I : Inv dec identity s) : Inv dec identity (step enc level identity s i) := by
@@ -46,80 +93,238 @@ theorem inv_step (henc : ∀ l, dec (enc l identity) = some identity) (s : St) (
   | none => exact I
   | some pc =>
     have hmem : pc ∈ s.tasks := List.mem_of_getElem? hpc
-    have hok := I.tasks pc hmem
     simp only
-    -- every branch that only changes task `i`
-    have keep : ∀ pc', PCOk dec identity s.cell pc' → Inv dec identity { s with tasks := s.tasks.set i pc' } := by
-      intro pc' h'
-      refine ⟨I.cell, ?_⟩
-      intro q hq
-      rcases mem_set _ _ _ _ hq with rfl | hq
-      · exact h'
-      · exact I.tasks q hq
     cases pc with
     | start =>
       dsimp only
       split
-      · exact keep _ (by simp [PCOk])
-      · rename_i h; exact keep _ (by cases hc : s.cell <;> simp_all [PCOk])
-    | computing => dsimp only; exact keep _ (henc _)
-    | computed b =>
+      next b hcell => exact inv_keep dec identity s i .start (.done b) hpc I rfl rfl rfl (by intro _ e; cases e) (by intro r e; cases e; exact hcell)
+      next hcell => exact inv_keep dec identity s i .start .waiting hpc I rfl rfl rfl (by intro _ e; cases e) (by intro r e; cases e)
+    | waiting =>
       dsimp only
       split
-      · exact keep _ hok
-      · rename_i h; exact keep _ (by cases hc : s.cell <;> simp_all [PCOk])
-    | storing b =>
-      dsimp only
-      refine ⟨?_, ?_⟩
-      · intro b' hb'; simp only [Option.some.injEq] at hb'; subst hb'; exact hok
-      · intro q hq
-        rcases mem_set _ _ _ _ hq with rfl | hq
-        · simp [PCOk]
-        · exact pcOk_mono dec identity s.cell (some b) (by simp) q (I.tasks q hq)
-    | reading =>
-      have hs : s.cell.isSome = true := hok
-      have hn : s.cell.isNone = false := by cases hc : s.cell <;> simp_all
-      dsimp only
-      rw [hn]
-      exact keep _ hs
-    | holding =>
-      have hs : s.cell.isSome = true := hok
-      cases hc : s.cell with
-      | none => rw [hc] at hs; cases hs
-      | some b =>
-        dsimp only
-        have := keep (.done b) (I.cell b hc)
-        simpa [hc] using this
-    | done r => dsimp only; exact I
-    | panicked => dsimp only; exact I
+      next b hcell => exact inv_keep dec identity s i .waiting (.done b) hpc I rfl rfl rfl (by intro _ e; cases e) (by intro r e; cases e; exact hcell)
+      next hcell =>
+        cases hp : s.permit with
+        | false => simpa using I
+        | true =>
+          simp only [↓reduceIte]
+          have hcnt := countP_set' holds s.tasks i _ .computing hpc
+          simp only [holds, Bool.false_eq_true, ↓reduceIte, Nat.add_zero] at hcnt
+          refine ⟨I.cell, ?_, ?_, ?_, I.stores, ?_, Nat.le_trans I.rel (gone_mono s.tasks i _ _ hpc rfl).1⟩
+          · intro b hb
+            rcases mem_set _ _ _ _ hb with e | hb
+            · cases e
+            · exact I.computed b hb
+          · intro r hr
+            rcases mem_set _ _ _ _ hr with e | hr
+            · cases e
+            · exact I.done r hr
+          · have hm := I.mutex
+            rw [hp] at hm
+            simp only [Bool.true_or, ↓reduceIte] at hm
+            simp only [hcell, Option.isSome_none, Bool.or_self, Bool.false_eq_true, ↓reduceIte]
+            omega
+          · have := I.counts
+            simp only; omega
+    | computing =>
+      have hcnt := countP_set' holds s.tasks i _ (.computed (enc (level i) identity)) hpc
+      simp only [holds, ↓reduceIte] at hcnt
+      refine ⟨I.cell, ?_, ?_, ?_, I.stores, (by have := I.counts; simp only; omega), Nat.le_trans I.rel (gone_mono s.tasks i _ _ hpc rfl).1⟩
+      · intro b hb
+        rcases mem_set _ _ _ _ hb with e | hb
+        · cases e; exact henc _
+        · exact I.computed b hb
+      · intro r hr
+        rcases mem_set _ _ _ _ hr with e | hr
+        · cases e
+        · exact I.done r hr
+      · have := countP_set' holds s.tasks i _ (.computed (enc (level i) identity)) hpc
+        simp only [holds, ↓reduceIte] at this
+        simp only; rw [← I.mutex]; omega
+    | computed b =>
+      -- the holder exists, so the permit is taken and the cell is empty
+      have hpos : 0 < s.tasks.countP holds := List.countP_pos_iff.2 ⟨_, hmem, rfl⟩
+      have hm := I.mutex
+      have hfree : s.permit = false ∧ s.cell = none := by
+        cases hp : s.permit <;> cases hc : s.cell <;> simp_all
+      have hothers : (s.tasks.set i (.done b)).countP holds = 0 := by
+        have := countP_set' holds s.tasks i _ (.done b) hpc
+        simp only [holds, ↓reduceIte, Bool.false_eq_true, Nat.add_zero] at this
+        rw [hfree.1, hfree.2] at hm
+        simp only [Option.isSome_none, Bool.or_self, Bool.false_eq_true, ↓reduceIte] at hm
+        omega
+      have hcount1 : s.tasks.countP holds = 1 := by
+        rw [hfree.1, hfree.2] at hm
+        simpa using hm
+      refine ⟨?_, ?_, ?_, ?_, ?_, (by have := I.counts; simp only; rw [hothers]; omega), Nat.le_trans I.rel (gone_mono s.tasks i _ _ hpc rfl).1⟩
+      · intro b' hb'
+        simp only [Option.some.injEq] at hb'
+        subst hb'; exact I.computed b hmem
+      · intro b' hb'
+        rcases mem_set _ _ _ _ hb' with e | hb'
+        · cases e
+        · exact I.computed b' hb'
+      · intro r hr
+        rcases mem_set _ _ _ _ hr with e | hr
+        · cases e; rfl
+        · have := I.done r hr
+          rw [hfree.2] at this; cases this
+      · simp only [Option.isSome_some, Bool.or_true, ↓reduceIte]; exact hothers
+      · have := I.stores
+        rw [hfree.2] at this
+        simp only [Option.isSome_none, Bool.false_eq_true, ↓reduceIte] at this
+        simp only [Option.isSome_some, ↓reduceIte, this]
+    | done r => exact I
+    | cancelled => exact I
 
-theorem inv_run (henc : ∀ l, dec (enc l identity) = some identity) : ∀ (sched : List Nat) (s : St),
+theorem inv_cancel (s : St) (i : Nat) (I : Inv dec identity s) : Inv dec identity (cancel s i) := by
+  unfold cancel
+  cases hpc : s.tasks[i]? with
+  | none => exact I
+  | some pc =>
+    have hmem : pc ∈ s.tasks := List.mem_of_getElem? hpc
+    simp only
+    have release : holds pc = true → Inv dec identity { s with permit := true, releases := s.releases + 1, tasks := s.tasks.set i .cancelled } := by
+      intro hh
+      have hpos : 0 < s.tasks.countP holds := List.countP_pos_iff.2 ⟨_, hmem, hh⟩
+      have hm := I.mutex
+      have hfree : s.permit = false ∧ s.cell = none := by
+        cases hp : s.permit <;> cases hc : s.cell <;> simp_all
+      have hcnt := countP_set' holds s.tasks i _ .cancelled hpc
+      rw [hh] at hcnt
+      rw [hfree.1, hfree.2] at hm
+      simp only [holds, ↓reduceIte, Bool.false_eq_true, Nat.add_zero, Option.isSome_none, Bool.or_self] at hcnt hm
+      have hg : gone pc = false := by cases pc <;> simp_all [holds, gone]
+      have hgm := (gone_mono s.tasks i pc .cancelled hpc hg).2 rfl
+      refine ⟨I.cell, ?_, ?_, ?_, I.stores, (by have := I.counts; simp only; omega), (by have := I.rel; simp only; omega)⟩
+      · intro b hb
+        rcases mem_set _ _ _ _ hb with e | hb
+        · cases e
+        · exact I.computed b hb
+      · intro r hr
+        rcases mem_set _ _ _ _ hr with e | hr
+        · cases e
+        · exact I.done r hr
+      · simp only [Bool.true_or, ↓reduceIte]
+        omega
+    cases pc with
+    | start => exact inv_keep dec identity s i .start .cancelled hpc I rfl rfl rfl (by intro _ e; cases e) (by intro r e; cases e)
+    | waiting => exact inv_keep dec identity s i .waiting .cancelled hpc I rfl rfl rfl (by intro _ e; cases e) (by intro r e; cases e)
+    | computing => dsimp only; exact release rfl
+    | computed b => dsimp only; exact release rfl
+    | done r => exact I
+    | cancelled => exact I
+
+theorem inv_run (henc : ∀ l, dec (enc l identity) = some identity) : ∀ (sched : List Op) (s : St),
     Inv dec identity s → Inv dec identity (run enc level identity s sched) := by
   intro sched
   induction sched with
   | nil => intro s I; exact I
-  | cons i is ih => intro s I; exact ih _ (inv_step enc dec level identity henc s i I)
+  | cons o os ih =>
+    intro s I
+    apply ih
+    unfold apply
+    split
+    · exact inv_cancel dec identity s o.i I
+    · exact inv_step enc dec level identity henc s o.i I
 
 /-- **concurrent first requests** — for every number `n` of callers on a cold entry, every level each of them asks
-for, and every interleaving `sched` of their steps: no caller panics (`unwrap` on an empty cell, dangling
-reference), and every caller that has finished holds bytes that decode to exactly the identity body. -/
-theorem concurrent_first_requests (henc : ∀ l, dec (enc l identity) = some identity) (n : Nat) (sched : List Nat) :
-    ∀ pc ∈ (run enc level identity (init n) sched).tasks,
-      pc ≠ .panicked ∧ ∀ r, pc = .done r → dec r = some identity := by
-  intro pc hpc
+for, every interleaving `sched` of their steps and every set of callers whose future is dropped half-way: every caller
+that has finished holds exactly the bytes that are in the cell (so all of them hold the same bytes), and these decode to
+exactly the identity body. -/
+theorem concurrent_first_requests (henc : ∀ l, dec (enc l identity) = some identity) (n : Nat) (sched : List Op) :
+    ∀ r, PC.done r ∈ (run enc level identity (init n) sched).tasks →
+      (run enc level identity (init n) sched).cell = some r ∧ dec r = some identity := by
+  intro r hr
   have I := inv_run enc dec level identity henc sched (init n) (inv_init dec identity n)
-  have := I.tasks pc hpc
-  constructor
-  · intro e; subst e; exact this
-  · intro r e; subst e; exact this
+  exact ⟨I.done r hr, I.cell r (I.done r hr)⟩
 
 /-- the memo afterwards (what the second and later requests reuse) decodes to the identity body as well -/
-theorem memo_is_sound (henc : ∀ l, dec (enc l identity) = some identity) (n : Nat) (sched : List Nat) (b : Bytes)
+theorem memo_is_sound (henc : ∀ l, dec (enc l identity) = some identity) (n : Nat) (sched : List Op) (b : Bytes)
     (h : (run enc level identity (init n) sched).cell = some b) : dec b = some identity :=
   (inv_run enc dec level identity henc sched (init n) (inv_init dec identity n)).cell b h
 
-/-! tests: two callers racing through the last check both store (the cell is written twice), and both finish -/
-example : let s := run (fun l b => l.toUInt8 :: b) (fun i => i) [7] (init 2) [0, 1, 0, 1, 0, 1, 0, 1, 0, 0, 1, 1]
-    (s.stores, s.tasks) = (2, [.done [1, 7], .done [1, 7]]) := by decide +kernel
+/-- **one computation at a time, one store ever**: at most one caller holds the permit, and the cell is written at
+most once — a reference handed out is never invalidated. -/
+theorem compressed_once (henc : ∀ l, dec (enc l identity) = some identity) (n : Nat) (sched : List Op) :
+    (run enc level identity (init n) sched).tasks.countP holds ≤ 1 ∧ (run enc level identity (init n) sched).stores ≤ 1 := by
+  have I := inv_run enc dec level identity henc sched (init n) (inv_init dec identity n)
+  constructor
+  · rw [I.mutex]; split <;> omega
+  · rw [I.stores]; split <;> omega
+
+/-- **one computation per store or departed holder**: the initialiser is started once for the value that is stored,
+once more for every holder whose future was dropped, and never otherwise. In particular, if nobody goes away, the
+body is compressed exactly once however many callers ask for it at the same time. -/
+theorem computes_accounted (henc : ∀ l, dec (enc l identity) = some identity) (n : Nat) (sched : List Op) :
+    let s := run enc level identity (init n) sched
+    s.computes = s.stores + s.releases + s.tasks.countP holds ∧ s.releases ≤ s.tasks.countP gone ∧ s.stores ≤ 1 := by
+  have I := inv_run enc dec level identity henc sched (init n) (inv_init dec identity n)
+  refine ⟨I.counts, I.rel, ?_⟩
+  rw [I.stores]; split <;> omega
+
+/-! ### nobody waits for ever -/
+
+def rank : PC → Nat
+  | .start => 4 | .waiting => 3 | .computing => 2 | .computed _ => 1 | .done _ => 0 | .cancelled => 0
+
+def unfinished (pc : PC) : Bool := rank pc != 0
+
+/-- **no deadlock**: while some caller has neither finished nor gone away, some caller can take a step that gets it
+further (so under any fair schedule everybody finishes: each such step lowers the sum of the ranks). -/
+theorem no_deadlock (s : St) (I : Inv dec identity s) (h : ∃ pc ∈ s.tasks, unfinished pc = true) :
+    ∃ i pc, s.tasks[i]? = some pc ∧ unfinished pc = true ∧
+      ∃ pc', (step enc level identity s i).tasks[i]? = some pc' ∧ rank pc' < rank pc := by
+  -- a caller that is not waiting can always move; if all unfinished callers wait, the permit is free or the cell is set
+  by_cases hnw : ∃ pc ∈ s.tasks, unfinished pc = true ∧ pc ≠ .waiting
+  · obtain ⟨pc, hmem, hu, hw⟩ := hnw
+    obtain ⟨i, hi, he⟩ := List.getElem_of_mem hmem
+    have hpc : s.tasks[i]? = some pc := by rw [List.getElem?_eq_getElem hi, he]
+    refine ⟨i, pc, hpc, hu, ?_⟩
+    unfold step
+    rw [hpc]
+    cases pc with
+    | start => cases s.cell <;> simp [List.getElem?_set, hi, rank]
+    | waiting => exact absurd rfl hw
+    | computing => simp [List.getElem?_set, hi, rank]
+    | computed b => simp [List.getElem?_set, hi, rank]
+    | done r => simp [unfinished, rank] at hu
+    | cancelled => simp [unfinished, rank] at hu
+  · obtain ⟨pc, hmem, hu⟩ := h
+    have hw : pc = .waiting := by
+      by_cases e : pc = .waiting
+      · exact e
+      · exact absurd ⟨pc, hmem, hu, e⟩ hnw
+    subst hw
+    obtain ⟨i, hi, he⟩ := List.getElem_of_mem hmem
+    have hpc : s.tasks[i]? = some .waiting := by rw [List.getElem?_eq_getElem hi, he]
+    refine ⟨i, .waiting, hpc, hu, ?_⟩
+    -- nobody holds the permit
+    have hnone : s.tasks.countP holds = 0 := by
+      rw [List.countP_eq_zero]
+      intro q hq
+      cases q with
+      | computing => exact absurd ⟨_, hq, rfl, by simp⟩ hnw
+      | computed b => exact absurd ⟨_, hq, rfl, by simp⟩ hnw
+      | _ => simp [holds]
+    have hm := I.mutex
+    rw [hnone] at hm
+    unfold step
+    rw [hpc]
+    cases hc : s.cell with
+    | some b => simp [List.getElem?_set, hi, rank]
+    | none =>
+      cases hp : s.permit with
+      | true => simp [List.getElem?_set, hi, rank]
+      | false => simp [hp, hc] at hm
+
+/-! tests: three callers; the second one computes, the first goes away while waiting, the third finds the cell set -/
+example : (fun s : St => (s.stores, s.tasks)) (run (fun l b => l.toUInt8 :: b) (fun i => i + 1) [7] (init 3)
+      [⟨0, false⟩, ⟨1, false⟩, ⟨1, false⟩, ⟨0, false⟩, ⟨0, true⟩, ⟨1, false⟩, ⟨1, false⟩, ⟨2, false⟩]) = (1, [PC.cancelled, PC.done [2, 7], PC.done [2, 7]]) := by decide +kernel
+
+/-- a holder that goes away gives the permit back: the next waiter computes at its own level -/
+example : (fun s : St => (s.stores, s.tasks)) (run (fun l b => l.toUInt8 :: b) (fun i => i + 1) [7] (init 2)
+      [⟨0, false⟩, ⟨0, false⟩, ⟨1, false⟩, ⟨1, false⟩, ⟨0, false⟩, ⟨0, true⟩, ⟨1, false⟩, ⟨1, false⟩, ⟨1, false⟩]) = (1, [PC.cancelled, PC.done [2, 7]]) := by decide +kernel
 
 end Memo
